@@ -1,5 +1,7 @@
 import PanderaModel.Props.C01
 import PanderaModel.CheckBackend
+import PanderaModel.Lemmas.Polars
+import PanderaModel.Lemmas.Field
 import PanderaModel.Generated.BackendRules
 /-!
 # C08 — one schema definition means the same on pandas and on polars
@@ -139,6 +141,122 @@ theorem negated_null_witness :
 theorem unique_verdict_keep_independent (k k' : Keep) (xs : List Val) :
     (∀ b ∈ dupMask k xs, b = false) ↔ (∀ b ∈ dupMask k' xs, b = false) := by
   rw [dupMask_allFalse_iff, dupMask_allFalse_iff]
+
+/-! ## the twin container pipelines -/
+
+/-- failure cases of a dtype error are not compared: pandas lists the offending elements of a `str`
+column, polars names the physical dtype -/
+def normErr (e : Err) : Err := if e.reason == .wrongDatatype then { e with cells := [] } else e
+
+/-- a column specification inside the shared vocabulary, outside the recorded regions -/
+structure SharedCol (spec : ColSpec) : Prop where
+  noRegex : spec.regex = none
+  keepAll : spec.reportDup = .none
+  checksOk : ∀ c ∈ spec.checks, c.ignoreNa = true ∨ docPred c.b .null = some false
+
+/-- the dtype step: same verdict; pandas lists elements for `str`, polars does not (normalised away) -/
+theorem dtype_agree (label : Option String) (dt : Option DType) (phys : DType) (vals : List Val)
+    (hfit : ∀ v ∈ vals, valFits phys v = true) (hK : ∀ t, dt = some t → K_C01_strVacuous t phys vals = false) :
+    (Polars.dtypeErrs label dt phys).map normErr = (Pandera.dtypeErrs true .column label dt phys vals).map normErr := by
+  unfold Polars.dtypeErrs Pandera.dtypeErrs
+  cases dt with
+  | none => rfl
+  | some t =>
+    have := dtypeOkImpl_eq t phys vals hfit (hK t rfl)
+    simp only [this, Spec.dtypeOk, Bool.true_and]
+    by_cases hq : t = phys
+    · simp [hq]
+    · have h1 : (t != phys) = true := by simp [hq]
+      have h2 : (!(t == phys)) = true := by simp [hq]
+      simp only [h1, h2, if_true, List.map_cons, List.map_nil, normErr]
+      simp
+
+/-- **one column component means the same on both backends**: the error lists of the polars and the
+pandas component pipelines coincide (reason, label, check number and failing cells), for every
+scope table at full depth -/
+theorem field_agree (T : ScopeTable) (spec : ColSpec) (n : String) (phys : DType) (vals : List Val)
+    (hname : spec.name = some n) (hs : SharedCol spec) (hfit : ∀ v ∈ vals, valFits phys v = true)
+    (hK : ∀ t, spec.dtype = some t → K_C01_strVacuous t phys vals = false) :
+    (Polars.fieldErrors spec n phys vals).map normErr
+      = (Pandera.fieldErrors T .schemaAndData .column spec (some n) phys vals).map normErr := by
+  unfold Polars.fieldErrors Pandera.fieldErrors
+  have hchk := Polars.checksSteps_agree (some n) vals spec.checks hs.checksOk
+  have hdt := dtype_agree (some n) spec.dtype phys vals hfit hK
+  have hnm : (!(((some n : Option String)).isNone || (some n : Option String) == some n)) = false := by simp
+  simp only [optRuns_sad, Bool.true_and, hname, hs.keepAll, hchk, if_true, hnm, Bool.false_eq_true, if_false,
+    List.nil_append, List.map_append, hdt]
+
+/-- a schema inside the shared vocabulary: no index component, `report_duplicates="all"`, every column shared -/
+structure SharedSchema (S : Schema) : Prop where
+  noIndex : S.index = none
+  keepAll : S.reportDup = .none
+  cols : ∀ spec ∈ S.columns, SharedCol spec
+
+theorem column_agree (T : ScopeTable) (spec : ColSpec) (D : Frame) (hs : SharedCol spec) (hwf : D.WF = true)
+    (hK : ∀ n c t, spec.name = some n → D.col? n = some c → spec.dtype = some t →
+      K_C01_strVacuous t c.dtype c.vals = false) :
+    (Polars.columnErrors spec D).map normErr = (Pandera.columnErrors T .schemaAndData spec D).map normErr := by
+  unfold Polars.columnErrors Pandera.columnErrors
+  rw [hs.noRegex]
+  cases hn : spec.name with
+  | none => simp
+  | some n =>
+    cases hc : D.col? n with
+    | none => simp [hc]
+    | some c =>
+      simp only [hc]
+      exact field_agree T spec n c.dtype c.vals hn hs (C01.wf_cols hwf c (col?_mem hc))
+        (fun t ht => hK n c t hn hc ht)
+
+theorem map_flatten_congr {α : Type} (l : List α) (f g : α → List Err)
+    (h : ∀ x ∈ l, (f x).map normErr = (g x).map normErr) :
+    ((l.map f).flatten).map normErr = ((l.map g).flatten).map normErr := by
+  induction l with
+  | nil => rfl
+  | cons x l ih =>
+    simp only [List.map_cons, List.flatten_cons, List.map_append]
+    rw [h x (by simp), ih (fun y hy => h y (by simp [hy]))]
+
+/-- **the twin container pipelines agree**: for every schema of the shared vocabulary and every
+well-formed table, outside the recorded region `K_C01_strVacuous`, the polars pipeline collects
+exactly the errors the pandas pipeline collects — same order, reasons, labels, check numbers and
+failing cells (the failure cases of dtype errors aside) -/
+theorem backends_agree (T : ScopeTable) (S : Schema) (D : Frame) (hs : SharedSchema S) (hwf : D.WF = true)
+    (hK : ∀ spec ∈ S.columns, ∀ n c t, spec.name = some n → D.col? n = some c → spec.dtype = some t →
+      K_C01_strVacuous t c.dtype c.vals = false) :
+    (Polars.frameErrors S D).map normErr = (Pandera.frameErrors T .schemaAndData S D).map normErr := by
+  unfold Polars.frameErrors Pandera.frameErrors coreCheckErrors
+  have hp : Polars.presenceErrors S D = Pandera.presenceErrors T .schemaAndData S D := by
+    unfold Polars.presenceErrors Pandera.presenceErrors; simp
+  have hj : Polars.jointUniqueErrors S D = Pandera.jointUniqueErrors T .schemaAndData S D := by
+    unfold Polars.jointUniqueErrors Pandera.jointUniqueErrors; simp [hs.keepAll]
+  have hi : indexPartErrors T .schemaAndData S D = [] := by
+    unfold indexPartErrors; rw [hs.noIndex]
+  have hc := map_flatten_congr S.columns (fun c => Polars.columnErrors c D)
+    (fun c => Pandera.columnErrors T .schemaAndData c D)
+    (fun spec hspec => column_agree T spec D (hs.cols spec hspec) hwf (hK spec hspec))
+  rw [hp, hj, hi]
+  simp only [List.map_append, List.append_assoc, List.append_nil, List.map_nil, hc]
+
+/-- hence the verdicts agree -/
+theorem verdicts_agree (T : ScopeTable) (S : Schema) (D : Frame) (hs : SharedSchema S) (hwf : D.WF = true)
+    (hK : ∀ spec ∈ S.columns, ∀ n c t, spec.name = some n → D.col? n = some c → spec.dtype = some t →
+      K_C01_strVacuous t c.dtype c.vals = false) :
+    Polars.accepts S D = Pandera.accepts T .schemaAndData S D := by
+  have h := congrArg List.isEmpty (backends_agree T S D hs hwf hK)
+  simpa [Polars.accepts, Pandera.accepts, List.isEmpty_iff] using h
+
+/-- the premises are met by a non-trivial schema and table, and the divergence inside the recorded
+region is real: `Column(str)` on an all-null float column -/
+example : SharedSchema { columns := [{ name := some "a", dtype := some .int64, unique := true, reportDup := .none,
+                                        checks := [{ b := .gt (.int 0) }] }], reportDup := .none } :=
+  ⟨rfl, rfl, by intro spec h; simp at h; subst h; exact ⟨rfl, rfl, by intro c hc; simp at hc; subst hc; left; rfl⟩⟩
+
+theorem strVacuous_divergence :
+    let S : Schema := { columns := [{ name := some "a", dtype := some .str, nullable := true, reportDup := .none }], reportDup := .none }
+    let D : Frame := { cols := [⟨"a", .float64, [.null]⟩], index := [⟨none, .int64, [.int 0]⟩], nrows := 1 }
+    Polars.accepts S D = false ∧ Pandera.accepts ⟨none, none, none, none, none, none, none, none, none, none⟩ .schemaAndData S D = true := by
+  decide
 
 end C08
 end Pandera
